@@ -10,7 +10,7 @@ Lemma w32_small x : 0 <= x < W32 -> w32 x = x.
 Proof. intros H. unfold w32. apply Z.mod_small. exact H. Qed.
 
 Lemma from_length_le (m : list byte) p : (length (from m p) <= length m)%nat.
-Proof. unfold from. rewrite skipn_length. lia. Qed.
+Proof. rewrite from_eq. rewrite skipn_length. lia. Qed.
 
 Section OneSegment.
 Variable r : ring.
